@@ -15,6 +15,8 @@ import (
 
 	v1 "github.com/DataDog/extendeddaemonset/api/v1alpha1"
 
+	"sigs.k8s.io/controller-runtime/pkg/client"
+
 	"vh/core"
 	"vh/kit"
 	"vh/simapi"
@@ -51,12 +53,14 @@ var faultKinds = []simapi.FaultKind{simapi.Reject, simapi.LostReply, simapi.Stop
 
 func (e *C11) Name() string { return "fault.c11" }
 func (e *C11) Rule() string {
-	return "corpus = first deployment, rolling update, canary start, promotion by time, promotion by validate, failure and rollback (with and without canary pods), node removal, settings change, migration from a DaemonSet; the failure-free run of each scenario is recorded, then re-run once per (API call index k, fault kind) with the fault armed at the k-th call issued by a controller: both tiers = every call x 4 kinds, thorough adds 20000 seeded pairs; stop faults void the rest of the invocation and all reconciler instances are rebuilt with empty in-memory state; all safety monitors run at every step and the final abstract state after failure-free recovery rounds is compared with the failure-free run's; non-trivial = distinct (scenario, call signature, fault kind) tuples"
+	return "corpus = first deployment, rolling update, canary start (also with a percentage of the nodes a canary node selector matches), promotion by time, promotion by validate, failure and rollback (with and without canary pods), node removal, settings change, migration from a DaemonSet; the failure-free run of each scenario is recorded, then re-run once per (API call index k, fault kind) with the fault armed at the k-th call issued by a controller: both tiers = every call x 4 kinds, thorough adds 20000 seeded pairs; stop faults void the rest of the invocation and all reconciler instances are rebuilt with empty in-memory state; all safety monitors run at every step and the final abstract state after failure-free recovery rounds is compared with the failure-free run's; non-trivial = distinct (scenario, call signature, fault kind) tuples"
 }
 
-func c11Settle(w *World, rounds int) {
+func c11Settle(w *World, rounds int) { c11SettleStep(w, rounds, 2*time.Second) }
+
+func c11SettleStep(w *World, rounds int, step time.Duration) {
 	for i := 0; i < rounds; i++ {
-		w.Advance(2 * time.Second)
+		w.Advance(step)
 		w.reconcileAllOrdered()
 		w.KubeletStep()
 		w.KubeletStep()
@@ -131,6 +135,35 @@ func c11Scripts() []c11Script {
 			w.quiet(func() { c11Settle(w, 7) })
 			w.SetTemplate("ns1", "foo", kit.Tpl("B"))
 			c11Settle(w, 4)
+		}},
+		{"canary-start-with-a-percentage-of-selected-nodes", func(w *World) {
+			// replicas as a percentage and a canary node selector: the selection lists the nodes twice (those the selector
+			// matches, and all of them as the base of the percentage); the active replica set is throttled (10s) while the
+			// canary replica set publishes its status at once, so for a few reconciles status.desired counts the canary
+			// nodes twice and the selection is re-evaluated
+			c11Nodes(w, 10)
+			c := manualCanary()
+			c.Replicas = kit.PS("30%")
+			c.NodeSelector = &metav1.LabelSelector{MatchLabels: map[string]string{"role": "agent"}}
+			w.CreateEDS(c11EDS(c))
+			w.quiet(func() { c11Settle(w, 9) })
+			w.S.Mutate(simapi.KindEDS, "ns1", "foo", func(o client.Object) {
+				o.(*v1.ExtendedDaemonSet).Spec.Strategy.ReconcileFrequency = &metav1.Duration{Duration: 10 * time.Second}
+			})
+			w.SetTemplate("ns1", "foo", kit.Tpl("B"))
+			w.Advance(2 * time.Second)
+			w.Reconcile("eds", "ns1", "foo") // creates the replica set of B
+			w.Reconcile("eds", "ns1", "foo") // selects the canary nodes
+			w.Advance(10 * time.Second)
+			for _, rs := range kit.RSs(w.S) {
+				if kit.MarkerOfTemplate(&rs.Spec.Template) == "B" {
+					w.Reconcile("ers", "ns1", rs.Name) // the canary replica set publishes its status first
+				}
+			}
+			w.Reconcile("eds", "ns1", "foo") // status.desired now counts the canary nodes twice
+			w.Reconcile("eds", "ns1", "foo") // ... which makes this reconcile evaluate the selection again
+			w.Reconcile("eds", "ns1", "foo")
+			c11Settle(w, 3)
 		}},
 		{"promotion-by-time", func(w *World) {
 			c11Nodes(w, 4)
@@ -314,8 +347,14 @@ func (e *C11) runScript(ctx *core.Ctx, sc c11Script, k1 int, f1 simapi.FaultKind
 	}
 	sc.run(w)
 	w.S.Fault = nil
-	// failure-free recovery rounds
-	c11Settle(w, 14)
+	// failure-free recovery rounds (no shorter than the reconcile frequency, which throttles the replica sets)
+	step := 2 * time.Second
+	for _, o := range w.S.All(simapi.KindEDS) {
+		if f := o.(*v1.ExtendedDaemonSet).Spec.Strategy.ReconcileFrequency; f != nil && f.Duration > step {
+			step = f.Duration
+		}
+	}
+	c11SettleStep(w, 14, step)
 	return calls, w.abstractFinal(), hit, w
 }
 
@@ -334,6 +373,15 @@ func (e *C11) init(ctx0 *core.Ctx, tier string, seed int64) {
 		ctx := core.ScratchCtx("C11", tier, seed)
 		calls, final, _, bw := e.runScript(ctx, sc, 0, 0, 0, 0, false)
 		e.base[sc.name] = &c11Base{calls: calls, final: final, maxLive: bw.MaxLivePerNode}
+		if os.Getenv("VH_C11_DUMP") == sc.name {
+			for i, c := range calls {
+				fmt.Fprintf(os.Stderr, "C11DUMP %d %s\n", i+1, c)
+			}
+			fmt.Fprintln(os.Stderr, "C11DUMP final", final)
+			for _, t := range bw.Trace {
+				fmt.Fprintln(os.Stderr, "C11TRACE", t)
+			}
+		}
 		for k, sig := range calls {
 			isWrite := !(strings.HasPrefix(sig, "get ") || strings.HasPrefix(sig, "list "))
 			_ = isWrite // both tiers enumerate every call; thorough adds pairs
